@@ -33,10 +33,12 @@ class DriverGen:
         self.n = 0
         self.funcs = []
 
-    def level_fn(self, lv):
+    def level_fn(self, lv, tag=None):
         """emit function for this level (children first); returns its name"""
         s = self.s
-        child = [self.level_fn(g) for g in lv.groups]
+        if tag is None:
+            tag = "::%s::schema::messages::%s" % (s.package, lv.name)
+        child = [self.level_fn(g, tag + "::" + g.name) for g in lv.groups]
         self.n += 1
         name = "lvl_%d" % self.n
         c = []
@@ -101,6 +103,31 @@ class DriverGen:
             c.append("    case %d: return mh::data_op(v.%s(), c);" % (i, d.name))
         c.append("    default: return \"ERRK\"; }")
         c.append("  if(c.op == \"esize\" || c.op == \"epos\") return mh::entry_info(v, c);")
+        c.append("#ifdef MSGDRV_BYTAG")
+        c.append("  if(c.op == \"getft\") switch(c.k) {")
+        for k, f in enumerate(nf):
+            if field_kind(s, f) == "S":
+                c.append("    case %d: return mh::show(sbepp::get_by_tag<%s::%s>(v));" % (k, tag, f.name))
+        c.append("    default: return \"ERRK\"; }")
+        c.append("  if(c.op == \"setft\") switch(c.k) {")
+        for k, f in enumerate(nf):
+            if field_kind(s, f) == "S":
+                c.append("    case %d: sbepp::set_by_tag<%s::%s>(v, mh::make<decltype(v.%s())>(c.arg)); return \"ok\";" % (k, tag, f.name, f.name))
+        c.append("    default: return \"ERRK\"; }")
+        c.append("  if(c.op == \"getbt\") switch(c.k) {")
+        for k, f in enumerate(nf):
+            if field_kind(s, f) in "AC":
+                c.append("    case %d: return mh::show_bytes(sbepp::get_by_tag<%s::%s>(v));" % (k, tag, f.name))
+        c.append("    default: return \"ERRK\"; }")
+        c.append("  if(c.op == \"ginfot\") { mh::Cmd c2 = c; c2.op = \"ginfo\"; switch(c.k) {")
+        for i, g in enumerate(lv.groups):
+            c.append("    case %d: return mh::group_op(sbepp::get_by_tag<%s::%s>(v), c2);" % (i, tag, g.name))
+        c.append("    default: return \"ERRK\"; } }")
+        c.append("  if(c.op == \"dinfot\") { mh::Cmd c2 = c; c2.op = \"dinfo\"; switch(c.k) {")
+        for i, d in enumerate(lv.data):
+            c.append("    case %d: return mh::data_op(sbepp::get_by_tag<%s::%s>(v), c2);" % (i, tag, d.name))
+        c.append("    default: return \"ERRK\"; } }")
+        c.append("#endif")
         c.append("#ifdef MSGDRV_CURSOR")
         c.append("  if(c.op == \"cur\") {")
         c.append("    sbepp::cursor<char> cur; std::ostringstream os; bool first = true;")
@@ -176,7 +203,7 @@ class DriverGen:
             out.append("            if(a.size() > 2) c.k = std::atoi(a[2].c_str());")
             out.append("            if(c.op == \"getcm\" || c.op == \"setcm\") { c.j = std::atoi(a[3].c_str()); if(a.size() > 5) c.arg = a[5]; }")
             out.append("            else if(c.op == \"getf\") {}")
-            out.append("            else if(c.op == \"setf\") { c.arg = a[4]; }")
+            out.append("            else if(c.op == \"setf\" || c.op == \"setft\") { c.arg = a[4]; }")
             out.append("            else if(a.size() > 3) c.arg = a[3];")
             out.append("            res = %s(m, c, 0); } }" % fn)
         out.append("      });\n      if(st == 1) res = \"ASSERT\"; else if(st == 2) res = \"FAULT\";\n    }\n"
